@@ -145,7 +145,7 @@ func RedactMongoLog(jsonStr string) (*orderedmap.OrderedMap[string, any], error)
 }
 
 func redactNamespace(cmd *orderedmap.OrderedMap[string, any]) {
-	searchedFields := []string{"ns", "aggregate", "insert", "find", "update", "collection", "delete", "$db", "count", "findAndModify", "findOneAndDelete", "replace", "findOneAndReplace", "findOneAndUpdate", "getIndexes", "countDocuments", "distinct", "mapReduce", "createIndexes", "dropIndexes", "listIndexes", "collStats", "drop", "create", "collMod", "validate"}
+	searchedFields := []string{"ns", "aggregate", "insert", "find", "update", "collection", "delete", "$db", "count", "findAndModify", "findOneAndDelete", "replace", "findOneAndReplace", "findOneAndUpdate", "getIndexes", "countDocuments", "findandmodify", "distinct", "mapReduce", "createIndexes", "dropIndexes", "listIndexes", "collStats", "drop", "create", "collMod", "validate"}
 	for _, field := range searchedFields {
 		if value, ok := cmd.Get(field); ok {
 			if valueStr, ok := value.(string); ok {
